@@ -76,21 +76,27 @@ def aeadKey : Bytes := [2]
 /-- the block key of the server side: the first identity key when the client uses identity headers -/
 def blockFor (idh : Nat) : Bytes := if idh = 0 then userBlock else [10]
 
-def outPacked (st : St) (o : Outcome Packed) : St × String :=
+/-- `ws`/`we`: an earlier packet window (relay: the receive window) whose bytes depend on the cipher;
+the compared prefix/suffix hashes stay outside both windows. -/
+def outPacked (st : St) (fs : List String) (o : Outcome Packed) : St × String :=
   match o with
   | .ok r =>
     let ps := r.packetStart.toNat
     let pl := r.packetLen.toNat
-    ({ st with buf := r.buf }, s!"ok {r.packetStart} {r.packetLen} {h r.view} {h (r.buf.take ps)} {h (r.buf.drop (ps + pl))}")
+    let lo := match argNat fs "ws" with | some w => min w ps | none => ps
+    let hi := match argNat fs "we" with | some w => max w (ps + pl) | none => ps + pl
+    ({ st with buf := r.buf }, s!"ok {r.packetStart} {r.packetLen} {h r.view} {h (r.buf.take lo)} {h (r.buf.drop hi)}")
   | .err e => (st, s!"err {showErr e}")
   | .panic => (st, "panic")
   | .noRoom => (st, "noRoom")
 
-def outUnpacked {α : Type} (sh : α → String) (st : St) (ps pl : Nat) (o : Outcome (Unpacked α)) : St × String :=
+def outUnpacked {α : Type} (sh : α → String) (st : St) (fs : List String) (ps pl : Nat) (o : Outcome (Unpacked α)) : St × String :=
   match o with
   | .ok r =>
+    let lo := match argNat fs "ws" with | some w => min w ps | none => ps
+    let hi := match argNat fs "we" with | some w => max w (ps + pl) | none => ps + pl
     ({ st with buf := r.buf },
-      s!"ok {sh r.addr} {r.payloadStart} {r.payloadLen} {h (sub r.buf r.payloadStart.toNat r.payloadLen.toNat)} {h (r.buf.take ps)} {h (r.buf.drop (ps + pl))}")
+      s!"ok {sh r.addr} {r.payloadStart} {r.payloadLen} {h (sub r.buf r.payloadStart.toNat r.payloadLen.toNat)} {h (r.buf.take lo)} {h (r.buf.drop hi)}")
   | .err e => (st, s!"err {showErr e}")
   | .panic => (st, "panic")
   | .noRoom => (st, "noRoom")
@@ -104,22 +110,22 @@ def stepPack (st : St) (kind : String) (fs : List String) : Option (St × String
   | "ssc" =>
     let r := ssClientPack toyCrypto userBlock aeadKey (eihOf (← argHex fs "eih")) (← argInt fs "mps") (← (arg fs "pol").bind parsePolicy)
       st.buf (← (arg fs "addr").bind parseAddr) start len (← argNat fs "rand") (← argHex fs "ts") (← argHex fs "sid") (← argHex fs "pid")
-    pure (outPacked st r)
+    pure (outPacked st fs r)
   | "sss" =>
     let r := ssServerPack toyCrypto userBlock aeadKey (← (arg fs "pol").bind parsePolicy) st.buf
       (← (arg fs "src").bind parseAddrPort) start len (← argInt fs "max") (← argNat fs "rand") (← argHex fs "ts")
       (← argHex fs "ssid") (← argHex fs "spid") (← argHex fs "csid")
-    pure (outPacked st r)
-  | "nonec" => pure (outPacked st (plainClientPack false (← argInt fs "limit") st.buf (← (arg fs "addr").bind parseAddr) start len))
-  | "socks5c" => pure (outPacked st (plainClientPack true (← argInt fs "limit") st.buf (← (arg fs "addr").bind parseAddr) start len))
-  | "nones" => pure (outPacked st (plainServerPack false st.buf (← (arg fs "src").bind parseAddrPort) start len (← argInt fs "max")))
-  | "socks5s" => pure (outPacked st (plainServerPack true st.buf (← (arg fs "src").bind parseAddrPort) start len (← argInt fs "max")))
+    pure (outPacked st fs r)
+  | "nonec" => pure (outPacked st fs (plainClientPack false (← argInt fs "limit") st.buf (← (arg fs "addr").bind parseAddr) start len))
+  | "socks5c" => pure (outPacked st fs (plainClientPack true (← argInt fs "limit") st.buf (← (arg fs "addr").bind parseAddr) start len))
+  | "nones" => pure (outPacked st fs (plainServerPack false st.buf (← (arg fs "src").bind parseAddrPort) start len (← argInt fs "max")))
+  | "socks5s" => pure (outPacked st fs (plainServerPack true st.buf (← (arg fs "src").bind parseAddrPort) start len (← argInt fs "max")))
   | "directc" =>
     let res ← arg fs "res"
     let res? ← (if res == "-" then some none else (parseIP res).map some)
-    pure (outPacked st (directClientPack (← argInt fs "mtu") res? st.buf (← (arg fs "addr").bind parseAddr) start len))
+    pure (outPacked st fs (directClientPack (← argInt fs "mtu") res? st.buf (← (arg fs "addr").bind parseAddr) start len))
   | "directs" =>
-    pure (outPacked st (directServerPack (← (arg fs "target").bind parseAddr) ((← argNat fs "only") == 1) st.buf
+    pure (outPacked st fs (directServerPack (← (arg fs "target").bind parseAddr) ((← argNat fs "only") == 1) st.buf
       (← (arg fs "src").bind parseAddrPort) start len (← argInt fs "max")))
   | _ => none
 
@@ -131,21 +137,21 @@ def stepUnpack (st : St) (kind : String) (fs : List String) : Option (St × Stri
     let idh ← argNat fs "idh"
     let lookup := (← argNat fs "lookup") == 1
     let users : List (Bytes × Bytes) := [((← argHex fs "uhash"), aeadKey)]
-    pure (outUnpacked showAddr st start len
+    pure (outUnpacked showAddr st fs start len
       (ssServerUnpack toyCrypto (blockFor idh) aeadKey idh lookup users (← argInt fs "now") st.buf start len))
   | "ssc" =>
-    pure (outUnpacked showAddrPort st start len
+    pure (outUnpacked showAddrPort st fs start len
       (ssClientUnpack toyCrypto userBlock aeadKey (← argHex fs "csid") (← argInt fs "now") st.buf start len))
-  | "nones" => pure (outUnpacked showAddr st start len (plainServerUnpack false st.buf start len))
-  | "socks5s" => pure (outUnpacked showAddr st start len (plainServerUnpack true st.buf start len))
+  | "nones" => pure (outUnpacked showAddr st fs start len (plainServerUnpack false st.buf start len))
+  | "socks5s" => pure (outUnpacked showAddr st fs start len (plainServerUnpack true st.buf start len))
   | "nonec" =>
-    pure (outUnpacked showAddrPort st start len
+    pure (outUnpacked showAddrPort st fs start len
       (plainClientUnpack false (← (arg fs "server").bind parseAddrPort) (← (arg fs "from").bind parseAddrPort) st.buf start len))
   | "socks5c" =>
-    pure (outUnpacked showAddrPort st start len
+    pure (outUnpacked showAddrPort st fs start len
       (plainClientUnpack true (← (arg fs "server").bind parseAddrPort) (← (arg fs "from").bind parseAddrPort) st.buf start len))
-  | "directs" => pure (outUnpacked showAddr st start len (directServerUnpack (← (arg fs "target").bind parseAddr) st.buf start len))
-  | "directc" => pure (outUnpacked showAddrPort st start len (directClientUnpack (← (arg fs "from").bind parseAddrPort) st.buf start len))
+  | "directs" => pure (outUnpacked showAddr st fs start len (directServerUnpack (← (arg fs "target").bind parseAddr) st.buf start len))
+  | "directc" => pure (outUnpacked showAddrPort st fs start len (directClientUnpack (← (arg fs "from").bind parseAddrPort) st.buf start len))
   | _ => none
 
 def stepOpt (st : St) (fs : List String) : Option (St × String) :=
